@@ -164,38 +164,120 @@ def analyze(definition, pcode: str, inp=None) -> list[dict]:
 CATEGORIES = ("unknown-command", "unknown-tag", "invalid-argument", "unit", "other")
 
 
-def classify(exc: BaseException) -> tuple[str, str]:
-    """(category, site) of a method error.  Categories of C20: unknown-command, unknown-tag, invalid-argument, unit."""
-    texts = []
-    e: BaseException | None = exc
-    while e is not None and len(texts) < 6:
-        texts.append(str(getattr(e, "message", "") or "") + " " + str(e))
-        e = e.__cause__ or e.__context__
-    t = " | ".join(texts)
-    if "Invalid instruction" in t or "Unknown command" in t or "Invalid command type scheduled" in t \
-            or "is not supported" in t and "Interpreter command" in t or "Unknown internal engine command" in t:
-        return "unknown-command", "instruction"
-    if "Unknown tag" in t or ("Tag name" in t and "not found" in t) or "tag_name is None or empty" in t:
-        return "unknown-tag", "tag"
-    if "Base instruction has invalid argument" in t:
-        return "invalid-argument", "Base"
-    if "Argument must be a duration" in t:
-        return "invalid-argument", "Wait"
-    if "Argument must be an integer" in t:
-        return "invalid-argument", "Run counter"
-    if "Failed to initialize arguments" in t:
-        return "invalid-argument", "engine-command"
-    if "Invalid arguments for command" in t:
-        return "invalid-argument", "uod-command"
-    if "Error evaluating condition" in t:
-        if "incompatible units" in t or "Conversion error" in t or "is not defined in the unit registry" in t \
-                or "Invalid unit" in t or "non-pint units" in t:
-            return "unit", "condition"
-        return "other", "condition-value"
-    if "Cannot convert between units" in t or "Cannot change unit on a tag with no unit" in t \
-            or "is not defined in the unit registry" in t:
-        return "unit", "simulate"
-    return "other", type(exc).__name__
+def _has_tag(engine, name) -> bool:
+    try:
+        return bool(name) and name.strip() != "" and engine.tags.has(name)
+    except Exception:  # noqa: BLE001
+        return False
+
+
+def _is_decimal(text) -> bool:
+    from openpectus.lang.exec.units import as_decimal
+    d = as_decimal(str(text))
+    return d is not None and d.is_finite()
+
+
+def units_reject(tag_unit, cond_unit) -> bool:
+    """Do the two units make `compare_values` fail whatever the (numeric) values are?  Decided by calling it with 1 = 1."""
+    from openpectus.lang.exec import units as U
+    try:
+        U.compare_values("=", "1", tag_unit, "1", cond_unit)
+        return False
+    except Exception:  # noqa: BLE001
+        return True
+
+
+def _frames(exc: BaseException | None) -> list[tuple[str, str]]:
+    """(module, function) of the frames of the exception chain that lie in openpectus or in this harness, outermost first."""
+    import traceback
+    out: list[tuple[str, str]] = []
+    seen = set()
+    while exc is not None and id(exc) not in seen:
+        seen.add(id(exc))
+        for fr, _ in traceback.walk_tb(exc.__traceback__):
+            fn = fr.f_code.co_filename
+            if "openpectus" in fn or fn.endswith("c20_engine.py"):
+                out.append((fn.rsplit("/", 1)[-1][:-3], fr.f_code.co_name))
+        exc = exc.__cause__ or exc.__context__
+    return out
+
+
+def classify_failure(engine, exc: BaseException) -> dict[str, Any]:
+    """Category of a method error, decided by WHERE it was raised (failing node class, raising function) and by DATA
+    (is the tag known to the engine? do the units reject any values?) — never by the wording of the error message.
+    Nothing is dropped: what is not recognised is `other` with node class, function and exception type in its site."""
+    import openpectus.lang.model.ast as p
+    le = getattr(engine.interpreter, "_last_error", None)
+    node = getattr(exc, "node", None) or (le[1] if le else None)
+    root = le[0] if le and le[0] is not None else exc
+    frames = _frames(root) + (_frames(exc) if exc is not root else [])
+    funcs = [f for _, f in frames]
+    inner = frames[-1] if frames else ("?", "?")
+    line = node.position.line if node is not None else None
+    tname = type(root).__name__
+
+    def out(cat, site):
+        return {"category": cat, "site": site, "line": line, "exc": tname, "raised_in": f"{inner[0]}.{inner[1]}",
+                "node": type(node).__name__ if node is not None else None,
+                "text": (str(getattr(exc, "message", "")) or str(exc))[:300]}
+    if "_is_awaiting_threshold" in funcs:
+        return out("other", "threshold")
+    if node is None:  # raised by the command manager while executing a scheduled command
+        if "execute" in funcs and funcs.index("execute") < len(funcs) - 1 or any(m == "c20_engine" for m, _ in frames):
+            return out("other", "exec-function")
+        if inner[1] == "_execute_uod_command":
+            name = None
+            import traceback
+            for fr, _ in traceback.walk_tb(root.__traceback__):
+                if fr.f_code.co_name == "_execute_uod_command":
+                    name = getattr(fr.f_locals.get("cmd_request"), "name", None)
+            d = out("invalid-argument", "uod-command")
+            d["command"] = name
+            return d
+        if "_execute_internal_command" in funcs:
+            return out("invalid-argument", "engine-command")
+        if "schedule_execution" in funcs:
+            return out("unknown-command", "instruction")
+        return out("other", f"command-manager:{inner[1]}:{tname}")
+    if isinstance(node, p.ErrorInstructionNode):
+        return out("unknown-command", "instruction")
+    if isinstance(node, (p.WatchNode, p.AlarmNode)):
+        c = node.tag_operator_value
+        if inner[1] != "_evaluate_condition" and "_evaluate_condition" not in funcs:
+            return out("other", f"{type(node).__name__}:{inner[1]}:{tname}")
+        if c is None or not c.tag_name or not c.tag_value:
+            return out("other", "condition-malformed")
+        if not _has_tag(engine, c.tag_name):
+            return out("unknown-tag", "condition")
+        tag = engine.tags.get(c.tag_name)
+        if units_reject(tag.unit, c.tag_unit):
+            return out("unit", "condition")
+        if not _is_decimal(tag.get_value()):
+            return out("other", "condition-value:tag-value-not-numeric")
+        if not _is_decimal(c.tag_value):
+            return out("other", "condition-value:compared-value-not-numeric")
+        return out("other", f"condition-value:unexplained:{tname}")
+    if isinstance(node, p.SimulateNode):
+        c = node.tag_operator_value
+        if c is not None and c.tag_name and not _has_tag(engine, c.tag_name):
+            return out("unknown-tag", "simulate")
+        if c is not None and c.tag_unit and c.tag_value_numeric:
+            return out("unit", "simulate")
+        return out("other", f"simulate:{inner[1]}:{tname}")
+    if isinstance(node, p.SimulateOffNode):
+        if not _has_tag(engine, node.arguments):
+            return out("unknown-tag", "simulate-off")
+        return out("other", f"simulate-off:{inner[1]}:{tname}")
+    if isinstance(node, p.InterpreterCommandNode):
+        if inner[1] in ("visit_InterpreterCommandNode", "validate_w_groups", "get_duration_end"):
+            known = node.instruction_name in ("Base", "Increment run counter", "Run counter", "Wait")
+            return out("invalid-argument" if known else "unknown-command", node.instruction_name if known else "instruction")
+        return out("other", f"InterpreterCommandNode:{inner[1]}:{tname}")
+    if isinstance(node, (p.UodCommandNode, p.EngineCommandNode)):
+        if "schedule_execution" in funcs:
+            return out("unknown-command", "instruction")
+        return out("other", f"{type(node).__name__}:{inner[1]}:{tname}")
+    return out("other", f"{type(node).__name__}:{inner[1]}:{tname}")
 
 
 def program_nodes(engine) -> list:
@@ -221,11 +303,6 @@ def node_ekind(node) -> str:
     if isinstance(node, p.ErrorInstructionNode):
         return "error"
     return "other"
-
-
-def _fail_of(exc: BaseException) -> str:
-    cat, _ = classify(exc)
-    return cat
 
 
 def static_verdict(engine, uod, node) -> str:
@@ -275,17 +352,16 @@ def static_verdict(engine, uod, node) -> str:
                     else "invalid-argument"
             return "unknown-command"
         if kind in ("watch", "alarm"):
+            c = node.tag_operator_value
             try:
                 engine.interpreter._evaluate_condition(node)
                 return "ok"
-            except AssertionError as e:
-                return "unknown-tag" if "Unknown tag" in str(e) else "other"
-            except Exception as e:  # noqa: BLE001
-                t = str(e)
-                if "incompatible units" in t or "Conversion error" in t or "is not defined in the unit registry" in t \
-                        or "Invalid unit" in t or "non-pint units" in t:
-                    return "unit"
-                return "other"
+            except Exception:  # noqa: BLE001 - classified by data, not by the message
+                if c is None or not c.tag_name or not c.tag_value:
+                    return "other"
+                if not _has_tag(engine, c.tag_name):
+                    return "unknown-tag"
+                return "unit" if units_reject(engine.tags.get(c.tag_name).unit, c.tag_unit) else "other"
         if kind == "simulate":
             c = node.tag_operator_value
             if c is None or not c.tag_name:
@@ -300,11 +376,8 @@ def static_verdict(engine, uod, node) -> str:
                 elif c.tag_value:
                     engine.interpreter.context.tags.get(c.tag_name)
                 return "ok"
-            except Exception as e:  # noqa: BLE001
-                t = str(e)
-                if "Tag name" in t and "not found" in t or "tag_name is None" in t:
-                    return "unknown-tag"
-                return "unit"
+            except Exception:  # noqa: BLE001
+                return "unit" if _has_tag(engine, c.tag_name) else "unknown-tag"
         if kind == "simulateoff":
             try:
                 engine.interpreter.context.tags.get(node.arguments)
@@ -353,16 +426,7 @@ def run_method(spec: dict, pcode: str, max_ticks: int = 60, settle: int = 6) -> 
                 if engine.has_error_state():
                     exc = engine.get_error_state_exception()
                     assert exc is not None
-                    cat, site = classify(exc)
-                    node = getattr(exc, "node", None)
-                    c = getattr(node, "tag_operator_value", None) if type(node).__name__ == "SimulateNode" else None
-                    if cat == "other" and c is not None and c.tag_unit and c.tag_value_numeric:
-                        # any failure of `simulate_value_and_unit` other than an unknown tag comes from the unit
-                        # conversion (e.g. TypeError float * Decimal)
-                        cat, site = "unit", "simulate"
-                    out["failure"] = {"category": cat, "site": site, "text": (str(getattr(exc, "message", "")) or str(exc))[:400],
-                                      "exc": type(exc).__name__,
-                                      "line": node.position.line if node is not None else None}
+                    out["failure"] = classify_failure(engine, exc)
                     break
                 nodes = program_nodes(engine)
                 done = all(n.completed or n.failed or type(n).__name__ in ("ProgramNode",) for n in nodes)
